@@ -35,8 +35,8 @@ try:
     rc, out = sh(demo_cmd, cwd=scratch)
     res["demo_without_patch_rc"] = rc
     res["demo_without_patch_tail"] = out[-600:]
-    open("/tmp/confirm_patch.diff", "w").write(patch)
-    rc, out = sh("git apply /tmp/confirm_patch.diff", cwd=scratch)
+    open("/tmp/confirm_patch_%s.diff" % sid, "w").write(patch)
+    rc, out = sh("git apply /tmp/confirm_patch_%s.diff" % sid, cwd=scratch)
     assert rc == 0, "patch does not apply: " + out
     rc, out = sh("go build ./...", cwd=scratch)
     res["build_rc"] = rc
